@@ -4,6 +4,28 @@ NOTES = ("Every check re-compiles coq/theories/Properties/<id>.v (theorems over 
          "implementation. See DESIGN.md. known_findings.json lists recorded defects; replays/ is written only on failure.")
 NOT_APPLICABLE = {}
 CLAIMS = {
+    "C02": {
+        "text": "PARTIAL proof + full correspondence. Theorems (all inputs): blank/newline runs, structure-context comments and the quoted spelling of a word "
+                "are invisible to the tokenizer model (token-level layout insensitivity). The tree-level statement - every rendering of an abstract tree by the "
+                "layout grammar (terminators, blanks, comments, backslash and quoted continuation, nesting vs dotted names, off regions, __END__, '!') parses to "
+                "that tree - is decided on every run by executing freephil and the extracted parser model on bounded-exhaustive + random renderings and by the "
+                "oracle comparing with the abstract tree.",
+        "note": "Trusted: Coq kernel, extraction, driver, harness, hand-written model of tokenizer.py/parser.py, the layout grammar's notion of rendering. "
+                "No parser-level theorem yet (stated in C02.v). Oracles: .type/.call construction, eval-based integers.",
+    },
+    "C15": {
+        "text": "PARTIAL proof + full correspondence. Theorems (all inputs): every token returned by the tokenizer model carries the line of its first character "
+                "(1 + newlines before it) whatever precedes, the hand-on position advances by exactly the newlines consumed, a missing closing quote cites the last "
+                "line. Parser-level line numbers (objects, words, error lines incl. off regions) are compared between freephil and the model on renderings "
+                "whose generator records the true line of every token, on malformed variants and on token soup.",
+        "note": "Trusted as C02. Lines of unused-definition reports and value errors are covered by C06 / C10 streams. source_info label not varied.",
+    },
+    "C16": {
+        "text": "PARTIAL proof + correspondence. Theorem: the tokenizer model never yields an internal error and always terminates (fuel never exhausted). "
+                "For parse and the argument interpreter the model's outcome class (Ok/UErr/Crash) is compared with the implementation's exception class on token "
+                "soup and mutated documents; any non-RuntimeError/Sorry exception is a violation unless listed in known_findings.json (F18, F6-attr).",
+        "note": "Trusted as C02. Converter value texts: C10 stream. eval bombs are not generated (a value like 9**9**9**9 does not return: limitation).",
+    },
     "C03": {
         "text": "Full-strength theorems (all strings over Latin-1, all four quote styles, any following text, both tokenizer contexts): "
                 "nw (quote_str q s ++ rest) returns exactly the word (s,q), leaves rest, advances the line counter by the newlines of s; "
